@@ -1,1 +1,226 @@
--- property theorems of C19 (not built yet)
+/-
+  C19 — clouds and hazes act only inside their declared pressure range.
+  Statements about `Taurex.Haze` (the definitions `driver_c19` executes on Float) at the carrier ℝ.
+  The cloud's infinite opacity is the explicit value `Ext.inf`; "opaque" means the returned transmittance is 0.
+-/
+import Proofs.C19
+
+open Finset
+
+namespace Taurex.C19
+open Taurex.Transmission Taurex.Haze
+
+/-! ### optically thick cloud deck -/
+
+section cloud
+variable (newMethod : Bool) (rp rs : ℝ) (n nwn : ℕ) (zb z dz dens P : ℕ → ℝ) (p0 : ℝ) (rest : List (Contrib ℝ))
+
+/-- every tangent layer at or below the cloud top (`P_l ≥ p0`) is opaque at all wavenumbers -/
+theorem cloud_opaque_below (l wn : ℕ) (h : p0 ≤ P l) :
+    cloudyTrans newMethod rp n nwn zb z dz dens P p0 rest l wn = 0 := by
+  simp [cloudyTrans, cloudyTau, cloudSigma, h, Ext.trans]
+
+/-- layers above the cloud top get exactly the transmittance they have without the cloud -/
+theorem cloud_above_untouched (l wn : ℕ) (h : P l < p0) :
+    cloudyTrans newMethod rp n nwn zb z dz dens P p0 rest l wn
+      = modelTrans true newMethod rp n nwn zb z dz dens rest l wn := by
+  have h' : ¬ p0 ≤ P l := not_le.2 h
+  simp [cloudyTrans, cloudyTau, cloudSigma, h', Ext.trans, modelTrans, tauCut]
+
+/-- the transit depth is at least the documented integral with the cloudy layers fully opaque, and at least
+    the depth without the cloud -/
+theorem cloud_depth_ge (W : WellFormed newMethod rp rs n zb z dz dens rest) (wn : ℕ) :
+    (rp ^ 2 + ∑ l ∈ range n, if p0 ≤ P l then 2 * (rp + z l) * dz l else 0) / rs ^ 2
+        ≤ cloudyDepth newMethod rp rs n nwn zb z dz dens P p0 rest wn ∧
+    modelDepth true newMethod rp rs n nwn zb z dz dens rest wn
+        ≤ cloudyDepth newMethod rp rs n nwn zb z dz dens P p0 rest wn := by
+  have hz := fun l hl => W.shells.z_radius_nonneg l hl
+  have htau : ∀ l < n, 0 ≤ tauCut n nwn (chord newMethod rp zb z dz l) dens l rest wn := fun l hl =>
+    tauCutFrom_ge n nwn _ dens l (W.path_nonneg l hl) W.dens_nonneg rest W.sigma_nonneg (fun _ => 0) wn
+  constructor
+  · have e : (rp ^ 2 + ∑ l ∈ range n, if p0 ≤ P l then 2 * (rp + z l) * dz l else 0) / rs ^ 2
+        = depth rp rs n z dz (fun l => if p0 ≤ P l then 0 else 1) := by
+      rw [depth_eq]
+      congr 2
+      apply Finset.sum_congr rfl
+      intro l _
+      split <;> simp
+    rw [e]
+    unfold cloudyDepth
+    apply depth_mono_tr rp rs W.rs_pos n z dz _ _ hz W.shells.thick
+    intro l hl
+    by_cases h : p0 ≤ P l
+    · rw [cloud_opaque_below newMethod rp n nwn zb z dz dens P p0 rest l wn h]; simp [h]
+    · rw [cloud_above_untouched newMethod rp n nwn zb z dz dens P p0 rest l wn (not_le.1 h)]
+      simp only [h, if_false, modelTrans, if_true]
+      exact trans_le_one _ (htau l hl)
+  · unfold cloudyDepth modelDepth
+    apply depth_mono_tr rp rs W.rs_pos n z dz _ _ hz W.shells.thick
+    intro l hl
+    by_cases h : p0 ≤ P l
+    · rw [cloud_opaque_below newMethod rp n nwn zb z dz dens P p0 rest l wn h]
+      simp only [modelTrans]; exact (trans_pos _).le
+    · rw [cloud_above_untouched newMethod rp n nwn zb z dz dens P p0 rest l wn (not_le.1 h)]
+
+end cloud
+
+/-- non-vacuity: two layers, cloud top between them, one absorber above -/
+def nvRest : List (Contrib ℝ) := [{ kind := .lin, sigma := fun _ _ => 1 }]
+
+example : cloudyTrans true 1 2 1 (fun l => (l : ℝ)) (fun l => (l : ℝ)) (fun _ => 1) (fun _ => 1)
+    (fun l => if l = 0 then 100 else 1) 10 nvRest 0 0 = 0 :=
+  cloud_opaque_below true 1 2 1 _ _ _ _ _ 10 nvRest 0 0 (by norm_num)
+
+example := cloud_above_untouched true 1 2 1 (fun l => (l : ℝ)) (fun l => (l : ℝ)) (fun _ => 1) (fun _ => 1)
+    (fun l => if l = 0 then (100 : ℝ) else 1) 10 nvRest 1 0 (by norm_num)
+
+/-! ### grey haze (FlatMie) -/
+
+/-- the window the code uses: both bounds in log10 Pa (an unset bound → the extreme level), sorted;
+    layer `l` (surface first) is slice index `n-1-l` (top first) -/
+theorem flat_sigma_window (n : ℕ) (plev : ℕ → ℝ) (b t mix : ℝ) (l : ℕ) :
+    flatSigma n plev b t mix l
+      = flatSigmaRevW n (flatLevel n plev)
+          (min (flatBound t (minTo n (flatLevel n plev))) (flatBound b (maxTo n (flatLevel n plev))))
+          (max (flatBound t (minTo n (flatLevel n plev))) (flatBound b (maxTo n (flatLevel n plev))))
+          mix (n - 1 - l) := by
+  unfold flatSigma
+  simp only
+  generalize flatBound t (minTo n (flatLevel n plev)) = x
+  generalize flatBound b (maxTo n (flatLevel n plev)) = y
+  by_cases h : x ≤ y
+  · simp only [h, if_true, min_eq_left h, max_eq_right h]
+  · have h' : y ≤ x := (not_le.1 h).le
+    simp only [h, if_false, min_eq_right h', max_eq_left h']
+
+example := flat_sigma_window 4 (fun i => (10 : ℝ) ^ (4 - (i : ℝ))) 100 1000 (1 / 10) 1
+
+/-- a layer wholly outside the window `[lo, hi]` (log10 Pa) gets no extinction -/
+theorem flat_outside_zero (n : ℕ) (lev : ℕ → ℝ) (lo hi mix : ℝ) (i : ℕ)
+    (h : lev (i + 1) ≤ lo ∨ hi ≤ lev i) : flatSigmaRevW n lev lo hi mix i = 0 := by
+  have hw : flatOverlap lev lo hi i = 0 := by
+    rw [overlap_eq]
+    apply max_eq_right
+    rcases h with h | h
+    · have := min_le_right hi (lev (i + 1)); have := le_max_left lo (lev i); linarith
+    · have := min_le_left hi (lev (i + 1)); have := le_max_right lo (lev i); linarith
+  unfold flatSigmaRevW
+  simp only [hw]
+  split <;> simp
+
+/-- a layer overlapping the window carries `mix · w` with `0 < w ≤ 1`, `w` = its overlap / the largest overlap -/
+theorem flat_inside (n : ℕ) (lev : ℕ → ℝ) (hm : LevMono n lev) (lo hi mix : ℝ) (i : ℕ) (hin : i < n)
+    (hpos : 0 < flatOverlap lev lo hi i) :
+    ∃ w, 0 < w ∧ w ≤ 1 ∧ flatSigmaRevW n lev lo hi mix i = w * mix ∧
+      w = flatOverlap lev lo hi i / flatWmax lev lo hi (flatStart n lev lo) (flatStop n lev hi) := by
+  obtain ⟨hs, ht⟩ := slice_contains n lev hm lo hi i hin hpos
+  have hge := wmax_ge lev lo hi _ _ i hs ht
+  have hwpos : 0 < flatWmax lev lo hi (flatStart n lev lo) (flatStop n lev hi) := lt_of_lt_of_le hpos hge
+  refine ⟨_, div_pos hpos hwpos, (div_le_one hwpos).2 hge, ?_, rfl⟩
+  unfold flatSigmaRevW
+  simp [hs, ht, hin, hwpos]
+
+/-- the layer with the largest overlap carries exactly `mix` -/
+theorem flat_max_exact (n : ℕ) (lev : ℕ → ℝ) (hm : LevMono n lev) (lo hi mix : ℝ) (i : ℕ) (hin : i < n)
+    (hpos : 0 < flatOverlap lev lo hi i) :
+    ∃ j, j < n ∧ flatSigmaRevW n lev lo hi mix j = mix := by
+  obtain ⟨hs, ht⟩ := slice_contains n lev hm lo hi i hin hpos
+  obtain ⟨j, hsj, hjt, hj⟩ := wmax_attained lev lo hi _ _ (le_trans hs ht)
+  have hge := wmax_ge lev lo hi _ _ i hs ht
+  have hwpos : 0 < flatWmax lev lo hi (flatStart n lev lo) (flatStop n lev hi) := lt_of_lt_of_le hpos hge
+  have hjn : j < n := by
+    have : flatStop n lev hi ≤ n - 1 := by
+      rw [flatStop_eq]
+      have := List.countP_le_length (p := fun i => decide (lev (i + 1) ≤ hi)) (l := List.range (n - 1))
+      simpa using this
+    omega
+  refine ⟨j, hjn, ?_⟩
+  unfold flatSigmaRevW
+  simp only [hsj, hjt, hjn, hwpos, and_self, if_true]
+  rw [← hj, div_self (ne_of_gt hwpos), one_mul]
+
+/-- both bounds unset (negative) = the whole atmosphere: the window is `[levels.min(), levels.max()]` and every
+    layer with positive thickness overlaps it with its full width -/
+theorem flat_unset_whole (n : ℕ) (plev : ℕ → ℝ) (hm : LevMono n (flatLevel n plev)) (b t mix : ℝ) (hb : b < 0)
+    (ht : t < 0) (l : ℕ) :
+    flatSigma n plev b t mix l
+      = flatSigmaRevW n (flatLevel n plev) (flatLevel n plev 0) (flatLevel n plev n) mix (n - 1 - l) ∧
+    ∀ i < n, flatOverlap (flatLevel n plev) (flatLevel n plev 0) (flatLevel n plev n) i
+      = flatLevel n plev (i + 1) - flatLevel n plev i := by
+  constructor
+  · unfold flatSigma
+    simp only [flatBound, hb, ht, if_true, maxTo_mono n _ hm, minTo_mono n _ hm]
+    have h0n : flatLevel n plev 0 ≤ flatLevel n plev n := hm 0 n (Nat.zero_le _) (le_refl _)
+    simp [h0n]
+  · intro i hi
+    rw [overlap_eq]
+    have h1 := hm (i + 1) n (by omega) (le_refl _)
+    have h2 := hm 0 i (Nat.zero_le _) (by omega)
+    have h3 := hm i (i + 1) (by omega) (by omega)
+    rw [min_eq_right h1, max_eq_right h2, max_eq_left (by linarith)]
+
+/-- inverted bounds are sorted: swapping two set bounds changes nothing -/
+theorem flat_inverted (n : ℕ) (plev : ℕ → ℝ) (b t mix : ℝ) (hb : 0 ≤ b) (ht : 0 ≤ t) (l : ℕ) :
+    flatSigma n plev b t mix l = flatSigma n plev t b mix l := by
+  unfold flatSigma flatBound
+  have hb' : ¬ b < 0 := not_lt.2 hb
+  have ht' : ¬ t < 0 := not_lt.2 ht
+  simp only [hb', ht', if_false]
+  generalize (log10 t : ℝ) = x
+  generalize (log10 b : ℝ) = y
+  rcases lt_trichotomy x y with h | h | h
+  · have h1 : x ≤ y := h.le
+    have h2 : ¬ y ≤ x := not_le.2 h
+    simp only [h1, h2, if_true, if_false]
+  · subst h; rfl
+  · have h1 : y ≤ x := h.le
+    have h2 : ¬ x ≤ y := not_le.2 h
+    simp only [h1, h2, if_true, if_false]
+
+/-- non-vacuity: 4 layers with levels 0,1,2,3,4 (log10), window [0.5, 2.5] covers 2½ layers -/
+example : 0 < flatOverlap (fun i => (i : ℝ)) (1 / 2) (5 / 2) 2 := by
+  rw [overlap_eq]; norm_num
+
+example : LevMono 4 (fun i => (i : ℝ)) := fun a b h _ => by show (a : ℝ) ≤ (b : ℝ); exact_mod_cast h
+
+example := flat_inside 4 (fun i => (i : ℝ)) (fun a b h _ => by show (a : ℝ) ≤ (b : ℝ); exact_mod_cast h) (1 / 2) (5 / 2) 3 2 (by norm_num)
+  (by rw [overlap_eq]; norm_num)
+
+example := flat_outside_zero 4 (fun i => (i : ℝ)) (1 / 2) (5 / 2) 3 3 (Or.inr (by norm_num))
+
+/-! ### Lee haze -/
+
+/-- no extinction in layers whose pressure is outside `[top, bottom]` -/
+theorem lee_outside_zero (n : ℕ) (P : ℕ → ℝ) (b t pi a q mix : ℝ) (wnv : ℕ → ℝ) (l wn : ℕ)
+    (h : P l < leeBound t (P (n - 1)) ∨ leeBound b (P 0) < P l) :
+    leeSigma n P b t pi a q mix wnv l wn = 0 := by
+  unfold leeSigma
+  simp only
+  rw [if_neg]
+  rintro ⟨h1, h2⟩
+  rcases h with h | h <;> linarith
+
+/-- inside the window the opacity is the declared law `Qext·π·a²` times the mixing ratio, the same in every
+    layer; the law is positive -/
+theorem lee_inside_law (n : ℕ) (P : ℕ → ℝ) (b t pi a q mix : ℝ) (wnv : ℕ → ℝ) (l wn : ℕ)
+    (h1 : leeBound t (P (n - 1)) ≤ P l) (h2 : P l ≤ leeBound b (P 0)) (hpi : 0 < pi) (ha : 0 < a) (hq : 0 ≤ q)
+    (hwn : 0 < wnv wn) :
+    leeSigma n P b t pi a q mix wnv l wn = leeLaw pi a q (wnv wn) * mix ∧ 0 < leeLaw pi a q (wnv wn) := by
+  refine ⟨?_, leeLaw_pos pi a q _ hpi ha hq hwn⟩
+  unfold leeSigma
+  simp [h1, h2]
+
+/-- both bounds unset = the whole atmosphere (layer pressures decrease with altitude) -/
+theorem lee_unset_whole (n : ℕ) (P : ℕ → ℝ) (hP : ∀ l < n, P (n - 1) ≤ P l ∧ P l ≤ P 0) (b t pi a q mix : ℝ)
+    (hb : b < 0) (ht : t < 0) (wnv : ℕ → ℝ) (l wn : ℕ) (hl : l < n) :
+    leeSigma n P b t pi a q mix wnv l wn = leeLaw pi a q (wnv wn) * mix := by
+  unfold leeSigma leeBound
+  simp [hb, ht, (hP l hl).1, (hP l hl).2]
+
+example := lee_inside_law 3 (fun l => 100 - (l : ℝ)) 99.5 98.5 3 1 40 (1 / 1000) (fun _ => 1000) 1 0
+  (by simp [leeBound]; norm_num) (by simp [leeBound]; norm_num) (by norm_num) (by norm_num) (by norm_num) (by norm_num)
+
+example := lee_outside_zero 3 (fun l => 100 - (l : ℝ)) 99.5 98.5 3 1 40 (1 / 1000) (fun _ => 1000) 0 0
+  (Or.inr (by simp [leeBound]; norm_num))
+
+end Taurex.C19
